@@ -24,7 +24,10 @@ def run(ctx):
     rcm = ctx.rule('R-COMMIT', 'SharedPromise::Set constructs the Result (may throw) before it gives the handle away',
                    minimum=2)
     rsh = ctx.rule('R-SHAPE', 'the shared core runs every subscribed callback exactly once and loses none (shape analysis, all list lengths)', minimum=2)
+    rcf = ctx.rule('R-CASFRESH', 'every retry of a compare-exchange re-tests the refreshed expected value against the '
+                   'sentinels the first attempt tested', minimum=2)
     for cfg, fb in sorted(fbs.items()):
+        lib_order.check_cas_fresh(ctx, fb, rcf, lambda f: 'SetCallbackImpl' in f.qn)
         lib_shape.check(ctx, fb, rsh, lambda qn: 'SetResultImpl' in qn, 2)
         lib_core.check_commit(ctx, fb, rcm)
         lib_core.check_after_release(ctx, fb, ra, lambda f: any(x in f.file for x in (
